@@ -33,7 +33,7 @@ ASSUMPTIONS = ["six 1.17 shim", "consonance randint(float) coerced", "alternatio
                "connection is up or being established", "pong timing keeps a margin from the tick (the instant in between is not judged)"]
 BUDGET = {"quick": (700, 170), "thorough": (20000, 2400)}
 FAULTS = ["connect_refused", "peer_fin", "rst", "srv_no_pong", "srv_late_pong", "stream_error", "login_failure", "tcp_cut"]
-PROBES = ["write_raced_with_close_by_other_thread", "auto_reconnect_after_stream_error", "no_reconnect_after_conflict", "no_reconnect_option_off", "ping_timeout_disconnect",
+PROBES = ["write_raced_with_close_by_other_thread", "failure_or_stream_error_crossed_client_close", "auto_reconnect_after_stream_error", "no_reconnect_after_conflict", "no_reconnect_option_off", "ping_timeout_disconnect",
           "pings_all_answered_no_disconnect", "passive_key_upload_reboot", "failure_closes_connection", "socket_dispatcher",
           "app_disconnect_while_connecting", "connected_before_previous_disconnected"]
 SHRINK = ["conns"]
@@ -503,6 +503,12 @@ class W(fullwire.FullWorld):
                 sp = self.script[a] if a < len(self.script) else {}
                 if sp.get("end") in ("app_disconnect_early",) or a in self.disc_requested_attempts:
                     # the application itself closed this connection; what the server sent may have arrived after that
+                    continue
+                c = self.conn_for(a)
+                if c is None or c.conn.s2c.inflight or c.conn.s2c.buf:
+                    # the client closed the connection (key-upload reconnect, its own timeout, ...) before it had read
+                    # everything the server sent: the stanza crossed the client's close on the wire
+                    self.probe("failure_or_stream_error_crossed_client_close")
                     continue
                 lost.append((a, kind))
             if len(lost) > (got_fail + got_se):
